@@ -17,6 +17,7 @@ import Proofs.Lemmas.DeclMods
 import Model.AccessDecl
 import Spec.AccessDecl
 import Proofs.Lemmas.AccessDecl
+import Model.ScopeEntry
 /-!
 # C07 — visibility and declared types are enforced at every access path and boundary
 
@@ -1471,6 +1472,121 @@ theorem C07_generated_judged_exact (H : Hier) (hd : NoDangling H) (ha : Acyclic 
   have e2 := C07_protected_judged_by_nearest
   rw [e, e2] at hns hnm ⊢
   exact C07_judged_by_nearest_exact H hd ha D hv scope r hns hnm
+
+/-! ### Round 8: entry paths — the scope class is per-call state every way into a body has to establish -/
+section EntryPaths
+open Model.ScopeEntry
+
+/-- class 2 extends 1 and alone declares the member, private -/
+def subPrivD : Decls := fun n => if n = 2 then some .priv else none
+/-- class 1 alone declares the member, private; 2 extends 1 -/
+def ownPrivD : Decls := fun n => if n = 1 then some .priv else none
+
+theorem shadowH_sub_21 : Sub shadowH 2 1 := .step (p := 1) (by decide) (.refl 1)
+
+/-- **C07_callable_kind_exact.** Code entered through a path that records the class of the code is judged by PHP's
+rule on the class where it is WRITTEN — whatever the runtime class of `$this`, for every hierarchy, every valid
+assignment of declarations and every receiver. -/
+theorem C07_callable_kind_exact (H : Hier) (hd : NoDangling H) (ha : Acyclic H) (D : Decls) (hv : ValidOverride H D)
+    (e : Entry) (he : e.records = true) (lex rt r : Name)
+    (hns : accessVia H .recvExtendsScope .nearest D e lex rt r ≠ .stuck)
+    (hnm : accessVia H .recvExtendsScope .nearest D e lex rt r ≠ .nomember) :
+    accessVia H .recvExtendsScope .nearest D e lex rt r = .allowed ↔ allowedOn H D (some lex) r := by
+  have hs : scopeOf e lex rt = lex := by simp [scopeOf, he]
+  unfold accessVia at hns hnm ⊢
+  rw [hs] at hns hnm ⊢
+  exact C07_judged_by_nearest_exact H hd ha D hv (some lex) r hns hnm
+
+/-- **C07_callable_kind_independent.** When every entry path records the class of the code, the decision does not
+depend on the path the code was entered through (ordinary call, generator, closure called later …), nor on the
+runtime class of `$this`. -/
+theorem C07_callable_kind_independent (es : List Entry) (h : ∀ e ∈ es, e.records = true)
+    (H : Hier) (fb : Fallback) (j : Judge) (D : Decls) (e₁ e₂ : Entry) (h1 : e₁ ∈ es) (h2 : e₂ ∈ es)
+    (lex rt₁ rt₂ r : Name) :
+    accessVia H fb j D e₁ lex rt₁ r = accessVia H fb j D e₂ lex rt₂ r := by
+  simp [accessVia, scopeOf, h e₁ h1, h e₂ h2]
+
+/-- **C07_callable_kind_independent_iff.** … and only then: the decisions of all paths coincide with the decision on
+the lexical class, for all hierarchies, declarations and receivers with the runtime class below the lexical class,
+IFF every path of the list records the class before the body runs. (⇐ fails on the two-class hierarchy where the
+subclass alone declares the member private.) -/
+theorem C07_callable_kind_independent_iff (es : List Entry) :
+    (∀ e ∈ es, e.records = true) ↔
+    (∀ e ∈ es, ∀ (H : Hier) (D : Decls) (lex rt r : Name), Sub H rt lex →
+      accessVia H .recvExtendsScope .nearest D e lex rt r = accessJ H .recvExtendsScope .nearest D (some lex) r) := by
+  constructor
+  · intro h e he H D lex rt r _
+    simp [accessVia, scopeOf, h e he]
+  · intro h e he
+    cases hr : e.records with
+    | true => rfl
+    | false =>
+      have := h e he shadowH subPrivD 1 2 2 shadowH_sub_21
+      simp [accessVia, scopeOf, hr] at this
+      exact absurd this (by decide)
+
+/-- **C07_unrecorded_entry_counterexample.** (the seeded change `C07-generator-method-scope-unset`, replayed by the
+shadowing stream as `shadow:kind-dependent:*/gen` + `shadow:leak:*/this/gen:priv:ancestor`) A generator method of
+class 1 running on an object of class 2 ⊂ 1 through a path that does not record the class: it READS the private
+member only class 2 declares (PHP refuses, the recording path refuses), and it is REFUSED the private member of
+its own class 1 (PHP allows, the recording path allows). The seeded list of paths is not all-recording. -/
+theorem C07_unrecorded_entry_counterexample :
+    accessVia shadowH .recvExtendsScope .nearest subPrivD ⟨"generator", false⟩ 1 2 2 = .allowed ∧
+    accessVia shadowH .recvExtendsScope .nearest subPrivD ⟨"generator", true⟩ 1 2 2 = .denied ∧
+    ¬ allowedOn shadowH subPrivD (some 1) 2 ∧
+    accessVia shadowH .recvExtendsScope .nearest ownPrivD ⟨"generator", false⟩ 1 2 2 = .denied ∧
+    accessVia shadowH .recvExtendsScope .nearest ownPrivD ⟨"generator", true⟩ 1 2 2 = .allowed ∧
+    allowedOn shadowH ownPrivD (some 1) 2 ∧
+    ¬ (∀ e ∈ Model.ScopeEntry.seeded, e.records = true) ∧
+    (∀ e ∈ Model.ScopeEntry.pinned, e.records = true) := by
+  refine ⟨by decide, by decide, ?_, by decide, by decide, ?_, by decide, by decide⟩
+  · intro h
+    cases h with
+    | inl h1 =>
+      obtain ⟨s, hs, _, hp⟩ := h1
+      cases hs
+      exact absurd hp (by decide)
+    | inr h2 =>
+      obtain ⟨d, m, hn, hm, hal⟩ := h2
+      have hd2 : d = 2 := by
+        have := hn.2.1
+        by_cases h2 : d = 2
+        · exact h2
+        · simp [subPrivD, h2] at this
+      subst hd2
+      have hmp : m = .priv := by
+        have : subPrivD 2 = some .priv := by decide
+        rw [this] at hm; exact (Option.some.inj hm).symm
+      subst hmp
+      exact absurd hal (by simp [allowed])
+  · exact Or.inl ⟨1, rfl, shadowH_sub_21, by decide⟩
+
+/-- **C07_every_entry_path_records_scope.** Obligation on the regenerated fact: every exit of `ClassMethod.Call`
+(generator branch, depth-limit error, body loop) lies behind the statement that records the class of the code, and
+the closure / function-in-method paths inherit it; the paths the harness drives are all listed. -/
+theorem C07_every_entry_path_records_scope :
+    (Generated.C07Access.entryPaths.all fun e => e.records) = true ∧
+    (["generator", "body", "closure", "functionInMethod"].all fun n =>
+      Generated.C07Access.entryPaths.any fun e => e.name == n) = true := by decide
+
+/-- **C07_generated_callable_kind_exact.** `C07_callable_kind_exact` for the facts regenerated on this run: code
+entered through ANY path the translator found in the source is judged by PHP's rule on its lexical class. -/
+theorem C07_generated_callable_kind_exact (H : Hier) (hd : NoDangling H) (ha : Acyclic H) (D : Decls)
+    (hv : ValidOverride H D) (e : Entry) (he : e ∈ Generated.C07Access.entryPaths) (lex rt r : Name)
+    (hns : accessVia H Generated.C07Access.fallbackRel Generated.C07Access.judgeRel D e lex rt r ≠ .stuck)
+    (hnm : accessVia H Generated.C07Access.fallbackRel Generated.C07Access.judgeRel D e lex rt r ≠ .nomember) :
+    accessVia H Generated.C07Access.fallbackRel Generated.C07Access.judgeRel D e lex rt r = .allowed ↔
+      allowedOn H D (some lex) r := by
+  have e1 := C07_fallback_directional
+  have e2 := C07_protected_judged_by_nearest
+  rw [e1, e2] at hns hnm ⊢
+  have hrec : e.records = true := by
+    have := C07_every_entry_path_records_scope.1
+    rw [List.all_eq_true] at this
+    exact this e he
+  exact C07_callable_kind_exact H hd ha D hv e hrec lex rt r hns hnm
+
+end EntryPaths
 
 end Shadow
 
